@@ -40,17 +40,18 @@ import (
 //             released together on ONE real core instance over the world backend
 // kinds     = create (EACH x2 on 2 nodes, one instance failing by an injected engine fault),
 //             create2f (same, both instances of one node failing), remove / dissociate of one
-//             workload on each of 2 nodes, realloc, control stop+start, send, set+get status,
+//             workload on each of 3 nodes (n1, n2 in pod p; n3 alone in pod q), realloc, control stop+start, send, set+get status,
 //             rpc (two concurrent unary calls on a real grpc server over bufconn, rpc.Vibranium)
 // schedule  = whatever the runtime does, R repetitions x GOMAXPROCS in {2,16}: a SAMPLE
 // observer  = the Go race detector; the worker re-executes itself once per scenario with
 //             GORACE=log_path=... (read at process start) and parses the report files
 // counts    = a report whose two access stacks are attributed (innermost frame that is neither
 //             runtime/std-lib/third-party) to github.com/projecteru2/core, not to mocks and
-//             not to the harness; signature = unordered pair of file:function locations
+//             not to the harness; signature = unordered pair of file:function[accessed thing] locations
+//             (no line numbers, so it is stable under unrelated edits)
 
 func init() {
-	register(Meta{ID: "C34", Level: "exploration", Race: true, ShardsQuick: 8, ShardsThor: 16, BudgetQuick: 110, BudgetThor: 1100}, checkC34)
+	register(Meta{ID: "C34", Level: "exploration", Race: true, ShardsQuick: 15, ShardsThor: 15, BudgetQuick: 140, BudgetThor: 1100}, checkC34)
 	// child dispatch: the worker binary re-executed with VERIF_C34_CHILD runs one scenario and
 	// exits before the test main starts (no *testing.T is needed: nothing runs in a bubble)
 	if p := os.Getenv("VERIF_C34_CHILD"); p != "" {
@@ -98,10 +99,11 @@ func checkC34(t *testing.T, c *vcore.Ctx) {
 		reps = 200
 	}
 	gmps := []int{2, 16}
-	c.SetRule("every unordered pair (with repetition) of operation kinds from {create EACH x2 on 2 nodes with one instance failing by an injected engine fault, the same with both instances of one node failing, remove of one workload on each of 2 nodes, dissociate of the same shape, realloc, control stop+start, send, set+get workload status, two concurrent unary RPCs (GetPod) on a real grpc server over bufconn serving rpc.Vibranium} " +
+	c.SetRule("every unordered pair (with repetition) of operation kinds from {create EACH x2 on 2 nodes with one instance failing by an injected engine fault, the same with both instances of one node failing, remove of one workload on each of 3 nodes (two nodes share a pod, the third is alone in its pod), dissociate of the same shape, realloc, control stop+start, send, set+get workload status, two concurrent unary RPCs (GetPod) on a real grpc server over bufconn serving rpc.Vibranium} " +
 		"run as two goroutines released together on one real core instance (real Calcium/Mercury/cobalt/cpumem/WAL over memetcd and the fakev engines), free-running in a -race build, R repetitions x GOMAXPROCS in {2,16}, one child process per scenario with GORACE=log_path; " +
 		"a race report counts when both access stacks can be attributed and at least one is attributed to github.com/projecteru2/core (not mocks), none to the harness; non-trivial = distinct (scenario, GOMAXPROCS) in which both operations ran to completion with their expected results")
 	c.Assume("the race detector observes the executions the runtime happened to produce: this check is exhaustive over the scenario alphabet only, schedules are sampled")
+	c.Assume("the in-memory backends are guarded by Go mutexes, so every backend request is a synchronisation point the detector sees but a network round-trip would not be: two conflicting accesses are reported only when no backend request of the first goroutine and a later one of the second lie between them; unsynchronised accesses that a real deployment separates only by network I/O can therefore be missed (never falsely reported)")
 	c.Assume("etcd is the in-memory model memetcd, engines are the fakev engines; races whose innermost non-library frame is harness code are harness defects and are filtered (listed in the notes)")
 	c.Bound("repetitions_per_scenario_and_gomaxprocs", reps)
 	c.Bound("gomaxprocs", gmps)
@@ -263,12 +265,12 @@ func c34Want(kind string) string {
 		return "ok3/fail1"
 	case "create2f":
 		return "ok2/fail2"
-	case "remove", "dissociate", "realloc", "send", "rpc":
+	case "rpc":
 		return "ok2/fail0"
-	case "control":
-		return "ok4/fail0"
-	case "status":
-		return "ok4/fail0"
+	case "remove", "dissociate", "realloc", "send":
+		return "ok3/fail0"
+	case "control", "status":
+		return "ok6/fail0"
 	}
 	return "?"
 }
@@ -286,7 +288,7 @@ type c34Report struct {
 
 var (
 	reAccess  = regexp.MustCompile(`^(Previous )?(atomic )?(read|write|Read|Write|Atomic read|Atomic write) at 0x[0-9a-f]+ by `)
-	reClosure = regexp.MustCompile(`\.(func|gowrap|deferwrap)[0-9]+(\.[0-9A-Za-z_]+)*$`)
+	reClosure = regexp.MustCompile(`\.(func|gowrap|deferwrap)[0-9]+`)
 )
 
 type c34Frame struct {
@@ -356,11 +358,8 @@ func c34ParseReports(text string) []c34Report {
 		case classes[0] == "none" || classes[1] == "none":
 			// one stack could not be restored / has no frame outside the libraries: the report
 			// cannot be attributed to a pair of locations
-			if classes[0] == "core" || classes[1] == "core" {
-				r.Class = "core"
-			} else {
-				r.Class = "unattributed"
-			}
+			// (kept out of the verdict, listed in the notes: the unknown side might be harness code)
+			r.Class = "unattributed"
 		case classes[0] == "core" || classes[1] == "core":
 			r.Class = "core"
 		default:
@@ -394,25 +393,76 @@ func c34ShortFn(fn string) string {
 	if i := strings.Index(s, "."); i >= 0 {
 		s = s[i+1:] // drop the package name
 	}
+	// drop the receiver: "(*Calcium).RemoveWorkload.func1.1" -> "RemoveWorkload.func1.1"
+	if strings.HasPrefix(s, "(") {
+		if i := strings.Index(s, ")."); i >= 0 {
+			s = s[i+2:]
+		}
+	}
 	// generic instantiation brackets
 	if i := strings.Index(s, "["); i >= 0 {
 		if j := strings.LastIndex(s, "]"); j > i {
 			s = s[:i] + s[j+1:]
 		}
 	}
-	if reClosure.MatchString(s) {
-		s = reClosure.ReplaceAllString(s, "") + ".func"
+	// closures (whatever their nesting and numbering, which the compiler is free to change): "<function>.func"
+	if m := reClosure.FindStringIndex(s); m != nil {
+		return s[:m[0]] + ".func"
 	}
-	// drop the receiver: "(*Calcium).RemoveWorkload.func" -> "RemoveWorkload.func"
-	if strings.HasPrefix(s, "(") {
-		if i := strings.Index(s, ")."); i >= 0 {
-			s = s[i+2:]
-		}
-	} else if i := strings.Index(s, "."); i >= 0 && !strings.HasPrefix(s[i:], ".func") {
-		// value receiver "Plugin.GetNodeResourceInfo"
+	// value receiver "Plugin.GetNodeResourceInfo" -> "GetNodeResourceInfo"
+	if i := strings.LastIndex(s, "."); i >= 0 {
 		s = s[i+1:]
 	}
 	return s
+}
+
+// c34SrcToken names WHAT is accessed at a source position without using the line number (which
+// moves with every edit above it): the left-hand side of the assignment / increment on that
+// line, or the start of the statement. It keeps two different races inside one function apart.
+// The text is read from the tree the binary was built from (VERIF_OVERLAY replacements honoured).
+var (
+	c34SrcMu    sync.Mutex
+	c34SrcCache = map[string][]string{}
+	c34Overlay  map[string]string
+	reLHS       = regexp.MustCompile(`^([A-Za-z_][\w\s,.\[\]\*]*?)\s*(:=|=|\+\+|--|\+=|-=)(\s|$)`)
+)
+
+func c34SrcToken(file, line string) string {
+	c34SrcMu.Lock()
+	defer c34SrcMu.Unlock()
+	if c34Overlay == nil {
+		c34Overlay = map[string]string{}
+		if ov := os.Getenv("VERIF_OVERLAY"); ov != "" {
+			var o struct{ Replace map[string]string }
+			if b, err := os.ReadFile(ov); err == nil && json.Unmarshal(b, &o) == nil {
+				c34Overlay = o.Replace
+			}
+		}
+	}
+	path := file
+	if r, ok := c34Overlay[file]; ok && r != "" {
+		path = r
+	}
+	lines, ok := c34SrcCache[path]
+	if !ok {
+		if b, err := os.ReadFile(path); err == nil {
+			lines = strings.Split(string(b), "\n")
+		}
+		c34SrcCache[path] = lines
+	}
+	var n int
+	fmt.Sscan(line, &n)
+	if n < 1 || n > len(lines) {
+		return ""
+	}
+	txt := strings.Join(strings.Fields(lines[n-1]), " ")
+	if m := reLHS.FindStringSubmatch(txt); m != nil {
+		txt = strings.TrimSpace(m[1])
+	}
+	if len(txt) > 40 {
+		txt = txt[:40]
+	}
+	return "[" + txt + "]"
 }
 
 // c34Attribute walks a stack from the access outwards and attributes it to the first frame
@@ -427,7 +477,7 @@ func c34Attribute(fr []c34Frame) (class, loc, where string) {
 			if strings.Contains(pkg, "/mocks") {
 				return "harness", "mocks:" + filepath.Base(f.File) + ":" + c34ShortFn(f.Fn), f.Fn
 			}
-			return "core", filepath.Base(f.File) + ":" + c34ShortFn(f.Fn), f.Fn + " " + f.File + ":" + f.Line
+			return "core", filepath.Base(f.File) + ":" + c34ShortFn(f.Fn) + c34SrcToken(f.File, f.Line), f.Fn + " " + f.File + ":" + f.Line
 		}
 	}
 	if len(fr) > 0 {
@@ -444,7 +494,7 @@ func c34Attribute(fr []c34Frame) (class, loc, where string) {
 type c34World struct {
 	b    *world.Backend
 	snap *world.Snap
-	ids  map[string][]string // slot -> workload ids (one on n1, one on n2)
+	ids  map[string][]string // slot -> workload ids (one on each of n1, n2 (pod p) and n3 (pod q))
 }
 
 func c34Child(specPath string) {
@@ -502,33 +552,42 @@ func c34Setup(dir string) (*c34World, error) {
 		return nil, err
 	}
 	ctx := world.WithThread(context.Background(), "setup")
+	f := &c34Fault{}
+	inst.SetInterceptor(f.intercept)
 	if _, err := inst.Cal.AddPod(ctx, "p", ""); err != nil {
 		return nil, err
 	}
-	for _, n := range []world.NodeSpec{{Name: "n1", Pod: "p", CPU: 4, Memory: 2000, Test: true}, {Name: "n2", Pod: "p", CPU: 4, Memory: 2000, NUMA: true, Test: true}} {
+	if _, err := inst.Cal.AddPod(ctx, "q", ""); err != nil {
+		return nil, err
+	}
+	// n1, n2 share pod p (operations on them serialise on the pod lock); n3 is alone in pod q, so
+	// the per-node goroutines of one remove/dissociate call really run in parallel
+	for _, n := range []world.NodeSpec{{Name: "n1", Pod: "p", CPU: 4, Memory: 2000, Test: true}, {Name: "n2", Pod: "p", CPU: 4, Memory: 2000, NUMA: true, Test: true}, {Name: "n3", Pod: "q", CPU: 4, Memory: 2000, Test: true}} {
 		if _, err := inst.Cal.AddNode(ctx, n.Options()); err != nil {
 			return nil, err
 		}
 	}
 	w := &c34World{b: b, ids: map[string][]string{}}
 	for _, slot := range []string{"A", "B"} {
-		msgs, err := inst.Create(ctx, world.DeploySpec{App: "pre" + strings.ToLower(slot), Pod: "p", Count: 1, Strategy: "EACH", Memory: 30})
-		if err != nil {
-			return nil, err
-		}
 		byNode := map[string]string{}
-		for _, m := range msgs {
-			if m.Error != nil {
-				return nil, fmt.Errorf("pre-create: %v", m.Error)
+		for _, pod := range []string{"p", "q"} {
+			msgs, err := inst.Create(ctx, world.DeploySpec{App: "pre" + strings.ToLower(slot), Pod: pod, Count: 1, Strategy: "EACH", Memory: 30})
+			if err != nil {
+				return nil, err
 			}
-			byNode[m.Nodename] = m.WorkloadID
+			for _, m := range msgs {
+				if m.Error != nil {
+					return nil, fmt.Errorf("pre-create: %v", m.Error)
+				}
+				byNode[m.Nodename] = m.WorkloadID
+			}
 		}
-		if byNode["n1"] == "" || byNode["n2"] == "" {
+		if byNode["n1"] == "" || byNode["n2"] == "" || byNode["n3"] == "" {
 			return nil, fmt.Errorf("pre-create did not place one workload per node: %v", byNode)
 		}
-		w.ids[slot] = []string{byNode["n1"], byNode["n2"]}
+		w.ids[slot] = []string{byNode["n1"], byNode["n2"], byNode["n3"]}
 	}
-	inst.Quiesce()
+	f.settle()
 	inst.Close()
 	w.snap = b.Save()
 	return w, nil
@@ -538,9 +597,28 @@ type c34Fault struct {
 	kinds map[string]string // thread -> kind
 	nA    atomic.Int64
 	nB    atomic.Int64
+	steps atomic.Int64
+}
+
+// settle waits (for housekeeping only, never for a verdict) until the instance has issued no
+// backend step for a few milliseconds: the operations have returned, what may still run is
+// their background remap. Instance.Quiesce is not used because outside a bubble it waits for
+// the pools' idle workers to expire (about a second of real time per repetition); Close
+// below still waits for every running pool task.
+func (f *c34Fault) settle() {
+	last, calm := f.steps.Load(), 0
+	for i := 0; i < 400 && calm < 4; i++ {
+		time.Sleep(time.Millisecond)
+		if n := f.steps.Load(); n != last {
+			last, calm = n, 0
+		} else {
+			calm++
+		}
+	}
 }
 
 func (f *c34Fault) intercept(ctx context.Context, s world.Step) error {
+	f.steps.Add(1)
 	if s.Layer != "engine" || s.Kind != "create" {
 		return nil
 	}
@@ -627,8 +705,8 @@ func c34Op(ctx context.Context, inst *world.Instance, w *c34World, kind, slot st
 			count(m.Error == nil)
 		}
 	case "status":
-		metas := []*coretypes.StatusMeta{{ID: ids[0], Running: true, Healthy: true}, {ID: ids[1], Running: true}}
-		out, err := inst.Cal.SetWorkloadsStatus(ctx, metas, map[string]int64{ids[0]: 0, ids[1]: 120})
+		metas := []*coretypes.StatusMeta{{ID: ids[0], Running: true, Healthy: true}, {ID: ids[1], Running: true}, {ID: ids[2], Running: true}}
+		out, err := inst.Cal.SetWorkloadsStatus(ctx, metas, map[string]int64{ids[0]: 0, ids[1]: 120, ids[2]: 120})
 		if err != nil {
 			return "error:" + err.Error()
 		}
@@ -713,6 +791,7 @@ func c34OneRep(w *c34World, a, b string) (ra, rb, problem string) {
 	go func() { defer wg.Done(); <-start; rb = c34Op(ctxB, inst, w, b, "B", cli) }()
 	done := make(chan struct{})
 	go func() { wg.Wait(); close(done) }()
+	t0 := time.Now()
 	close(start)
 	select {
 	case <-done:
@@ -722,7 +801,9 @@ func c34OneRep(w *c34World, a, b string) (ra, rb, problem string) {
 		cancelB()
 		return "", "", "the two operations were still running after 90 s of real time (watchdog)"
 	}
-	inst.Quiesce()
+	t1 := time.Now()
+	f.settle()
+	t2 := time.Now()
 	cancelA()
 	cancelB()
 	for _, fn := range cleanup {
@@ -730,5 +811,8 @@ func c34OneRep(w *c34World, a, b string) (ra, rb, problem string) {
 	}
 	inst.SetInterceptor(nil)
 	inst.Close()
+	if os.Getenv("VERIF_C34_TIMING") != "" {
+		fmt.Fprintf(os.Stderr, "rep: ops %v quiesce %v close %v\n", t1.Sub(t0), t2.Sub(t1), time.Since(t2))
+	}
 	return ra, rb, ""
 }
